@@ -114,6 +114,8 @@ class World:
         return hits[0] + 1 if len(hits) == 1 else -len(hits)
 
     def abstract_sv(self, sv, plain):
+        if type(sv.ciphertext) is not bytes:
+            return {"m": sv.method, "ct": {"k": "not-bytes:" + type(sv.ciphertext).__name__, "y": []}}
         if sv.method == "xor":
             return {"m": "xor", "ct": {"k": "raw", "y": list(sv.ciphertext)}}
         ct = sv.ciphertext
@@ -201,7 +203,8 @@ class World:
                     return {"out": "notpt" if wrong else "error", "ret": {"t": "none"}, "notpt": True}
                 if sv.method == "aes" and got != pt:
                     return {"out": "notpt", "ret": {"t": "none"}, "notpt": True}
-                return {"out": "ok", "ret": {"t": "bytes", "y": list(got)}, "notpt": got != pt}
+                # (codec.to_abs: a bytearray is not bytes)
+                return {"out": "ok", "ret": codec.to_abs(got), "notpt": got != pt}
             if op == "DecryptTruncated":
                 sv, k, pt = self.store[ev["i"] - 1]
                 cut = cinco.encryption.SecureValue(sv.method, sv.ciphertext[:32])
